@@ -31,7 +31,14 @@ def main():
         logging.disable(logging.CRITICAL)
         from eudoxia.simulator import run_simulator
         for other in job.get('before', []):
-            run_simulator(dict(other))
+            if job.get('via_defaults'):
+                # the way the README and the test suite configure a run: take the table of defaults and adjust it
+                from eudoxia.simulator import get_param_defaults
+                q = get_param_defaults()
+                q.update(other)
+                run_simulator(q)
+            else:
+                run_simulator(dict(other))
         print(json.dumps(run_simulator(dict(job['params'])).to_dict(), sort_keys=True, default=str))
     elif job['kind'] == 'gen':
         from harness.props.C07 import generated_workload
